@@ -170,7 +170,9 @@ def truth(v, st=None):
         inner = v.ty[1][0]
         if inner in ("ref", "list", "dict", "str"):      # objects are truthy unless list/dict/str (emptiness) -- only refs allowed here
             if inner == "ref":
-                return z3.Not(v.none)
+                # `if x:` on an Optional object is NOT `x is not None`: the class (or a user subclass - loggers, agents, markets and events are meant to be subclassed) may
+                # define __bool__ / __len__ (OrderBook does).  pams itself always tests `is None`; an edit that does not leaves the verified subset.
+                raise Unsupported(f"truth value of an optional object of class {v.ty[1][1]} (objects may define __bool__/__len__; test `is None`)")
         if inner == "bool":
             return z3.And(z3.Not(v.none), v.term)
         if inner in ("int", "real"):
